@@ -73,6 +73,10 @@ type Item struct {
 	// records' own timestamp fields are still the producer's.  The timestamp of every record of the batch IS the
 	// append time (Kafka protocol guide, record batch / message set: timestampType).
 	LogAppendTs int64
+	// Control: a control batch (attributes bit 5, written by the transaction coordinator: one record, the commit / abort
+	// marker).  It occupies Base..Last of the log but holds nothing for the application: no consumer is ever handed a
+	// control record.  In the layout text it is an empty batch.
+	Control bool
 }
 
 // stored is the record as the log defines it: under LogAppendTime its timestamp is the batch's append time.
@@ -169,6 +173,9 @@ func encodeV2(it Item) (out []byte, plen int, sizes []int) {
 		pl = compressBytes(it.Codec, pl)
 	}
 	attrs := int16(it.Codec)
+	if it.Control {
+		attrs |= 0x30 // transactional + control
+	}
 	if it.LogAppendTs != 0 {
 		attrs |= 0x08
 		maxTs = it.LogAppendTs
@@ -230,6 +237,9 @@ func (it Item) Encode() ([]byte, string) {
 	switch {
 	case it.Format == 2:
 		out, plen, sizes := encodeV2(it)
+		if it.Control {
+			return out, fmt.Sprintf("b:%d:%d:0:0:-", it.Base, it.Last)
+		}
 		var rs []string
 		for i, r := range it.Recs {
 			rs = append(rs, fmt.Sprintf("%d~%d~%d", r.Offset-it.Base, it.stored(r).Digest(2), sizes[i]))
